@@ -179,6 +179,10 @@ def uml_mutants(ctx):
         inp = {"name": ctx.rng.choice(kj.UML_DIAGRAMS), "ns": ctx.rng.choice(["", "1"]), "mut_seed": ctx.rng.randint(0, 1 << 30),
                "mut_n": ctx.rng.randint(1, 4), "lang": kind}
         configs = [CONFIGS[0], ("abs", 1 + i % 7, "", None, None, "UTC"), ("abs", 11 + i % 5, "", None, None, "UTC")]
+        if i == 1:
+            # directed: two types of one name in different packages used by one class, under six hash seeds
+            inp = {"name": "TestClassDiagram", "ns": "1", "mut_seed": 0, "mut_n": 0, "probe": "same-name-types", "lang": kind}
+            configs = [CONFIGS[0]] + [("abs", h, "", None, None, "UTC") for h in (1, 2, 3, 5, 8)]
         res = one_case(ctx, kind, inp, None, 0, configs)
         ctx.case((kind, json.dumps(inp, sort_keys=True)), nontrivial=(res != "trivial"))
         ctx.count("e2e_" + kind)
